@@ -161,7 +161,8 @@ def nt_c09(tr):
 
 
 THEOREMS_C09 = ['C09_acceptor_invariant', 'C09_fanout_serves_each_held_subscriber_exactly_once', 'C09_only_subscribers_are_served', 'C09_one_fanout_at_a_time', 'C09_clone_goes_to_its_target', 'C09_clone_is_an_ordinary_message', 'C09_table_holds_no_reference',
-                "C09_mailbox_processed_in_order_of_acceptance", "C09_ith_processed_is_ith_accepted", "C09_subscribed_before_means_in_the_table", "C09_nothing_after_a_processed_unsubscribe"]
+                "C09_mailbox_processed_in_order_of_acceptance", "C09_ith_processed_is_ith_accepted", "C09_subscribed_before_means_in_the_table", "C09_nothing_after_a_processed_unsubscribe",
+                "C09_must_serve_refines_model_and_mailbox", "C09_owed_are_the_upgradable_subscribers_of_the_table", "C09_no_clone_before_every_owed_subscriber_is_held"]
 
 PROPS = {
     "C07": {
@@ -291,7 +292,7 @@ PROPS = {
     },
     "C09": {
         "families": [("broker", 1500, 40000)],
-        "monitors": ["C09", "C03", "C09q"],
+        "monitors": ["C09", "C03", "C09q", "C09s"],
         "theorems": THEOREMS_C09,
         "nontrivial": nt_c09,
         "rule": "cases generated from (family, VERIF_SEED, index): 1-3 publishing client tasks, 1-4 subscribers over 1-2 topics; subscribe in started() or later, re-subscribe, unsubscribe, stop and last-drop of subscribers at random positions; publishing through Broker::publish, Addr<Broker>::publish and Context::publish; bounded subscriber mailboxes with busy handlers (the broker parks); non-trivial = a fan-out over a table of at least two subscribers, with an unsubscribe, a terminated subscriber or several publications around; distinct = distinct case JSON",
@@ -337,9 +338,10 @@ MANIFEST_TEXT = {
                 "C09_fanout_serves_each_held_subscriber_exactly_once, C09_only_subscribers_are_served, C09_one_fanout_at_a_time, C09_clone_goes_to_its_target; and about the main model: C09_clone_is_an_ordinary_message (a closed subscriber is skipped without effect), C09_table_holds_no_reference. "
                 "The broker's mailbox is the second machine, Chk/C09q.v (a topic operation is accepted in the step in which it returns; the broker must take operations out in that order and may hold senders only for subscribers of the table they produce); about every run of it: C09_mailbox_processed_in_order_of_acceptance / C09_ith_processed_is_ith_accepted (what is processed is always a prefix of what was accepted, in order: per-publisher order, one common order), "
                 "C09_subscribed_before_means_in_the_table, C09_nothing_after_a_processed_unsubscribe. Both machines run, extracted, on every implementation trace. "
-                "[partial] 'a subscriber in the table that is alive and strongly held is in fact held and served' is the broker's upgrade loop, checked on implementation traces by the search acceptor; the machines are tied to the code by correspondence (acceptance of every trace), not derived from it.",
+                "Third machine, Chk/C09s.v (product with the main model): when a fan-out begins the subscribers of the table that upgrade at that moment (alive and strongly held in the main model) are owed a clone, and the first clone / the end of the fan-out is accepted only when each of them is held (C09_owed_are_the_upgradable_subscribers_of_the_table, C09_no_clone_before_every_owed_subscriber_is_held); with 'every held subscriber is served exactly once' this is the delivery clause. "
+                "[partial] the three machines are tied to the code by correspondence (acceptance of every implementation trace), not derived from it; their composition with C01's FIFO into 'one common order at every subscriber' is argued in prose.",
         "note": COMMON_NOTE,
-        "technique": "Rocq/Coq proof (invariants over all runs of two extracted acceptor state machines - fan-out and mailbox order - + one-step theorems) ; correspondence: the extracted acceptor and the main model must accept every implementation trace of the broker family",
+        "technique": "Rocq/Coq proof (invariants over all runs of three extracted acceptor state machines - fan-out, mailbox order, who must be served - + one-step theorems) ; correspondence: the extracted acceptor and the main model must accept every implementation trace of the broker family",
         "design_ref": "DESIGN.md section 6 C09",
     },
     "C02": {
